@@ -311,6 +311,7 @@ def c12(res):
     # (0) design level: bounded delay after expiry, for 1-2 workers; the as-found variant must violate it
     mc_jobmarket(res, ["JobMarket_1w_timeout", "JobMarket_2w_timeout"])
     asis_must_fail(res)
+    fam_graph.checker_controls(res, rng, q)
     # (a) HasDiscoveries::matches on every (property list, discoveries, variant)
     mp = os.path.join(wd, "matches.ndjson")
     mo = os.path.join(wd, "matches.json")
